@@ -31,6 +31,32 @@ RoundLaw(k) == /\ FAbs(10 * RoundPence(k) - k) <= 5
                /\ RoundPence(-k) = -RoundPence(k)
                /\ (FAbs(10 * RoundPence(k) - k) = 5 => FAbs(RoundPence(k)) * 10 > FAbs(k))
 
+\* ---- echoes of the input: unit prices and fees in their own currency (C17 "foreign-currency transaction echoes")
+\* value in thousandths shown in full, trailing zeros dropped: 150000 -> "150", 4250 -> "4.25", 5 -> "0.005"
+Trimmed(k) ==
+  LET a == k \div 1000  r == k - 1000 * a IN
+  IF r = 0 THEN ToString(a)
+  ELSE IF r - 100 * (r \div 100) = 0 THEN ToString(a) \o "." \o ToString(r \div 100)
+  ELSE IF r - 10 * (r \div 10) = 0 THEN ToString(a) \o "." \o Pad(r \div 10, 2)
+  ELSE ToString(a) \o "." \o Pad(r, 3)
+\* the text report writes a unit price / fee as the currency's symbol followed by the full value; the symbol is
+\* named here (TLC prints ASCII) and spelt by the harness: pound, dollar, euro
+SymbolName(cur) == CASE cur = "GBP" -> "pound" [] cur = "USD" -> "dollar" [] cur = "EUR" -> "euro" [] OTHER -> cur
+PriceText(k, cur) == <<SymbolName(cur), Trimmed(k)>>
+\* a value in a table cell of the PDF: pounds as everywhere else, other currencies as "USD 1,234.57" -- always in the
+\* amount's OWN currency
+CurCell(k, cur) ==
+  IF cur = "GBP" THEN Gbp(k)
+  ELSE LET p == RoundPence(k) IN cur \o " " \o Grouped(p \div 100) \o "." \o Pad(p - 100 * (p \div 100), 2)
+\* the value of an asset event in the text report: pounds as everywhere else, otherwise "1234.57 USD"
+EventText(k, cur) ==
+  IF cur = "GBP" THEN Gbp(k)
+  ELSE LET p == RoundPence(k) IN ToString(p \div 100) \o "." \o Pad(p - 100 * (p \div 100), 2) \o " " \o cur
+\* quantities are shown exactly; the PDF keeps at most six decimal places and drops trailing zeros, so for the
+\* quantities used here (q in thousandths) both front-ends show the same text
+QtyText(q) == Trimmed(q)
+QtyPdf(q) == Trimmed(q)
+
 DateUk(y, m, d) == Pad(d, 2) \o "/" \o Pad(m, 2) \o "/" \o Pad(y, 4)
 TaxYearLabel(Y) == ToString(Y) \o "/" \o Pad((Y + 1) - 100 * ((Y + 1) \div 100), 2)
 =============================================================================
